@@ -3,7 +3,7 @@ import KafVerif.Prelude.Driver
 /-! Line-protocol driver for the processor loop model (C33).
 
 ```
-case <variant> <mem|noop>         -> case
+case <variant> <mem|noop> [stats=next|footer]   -> case
 seg <tp> <o1,o2,…|->              -> seg
 cycle <listFail 0|1> <claim bits|-> <faults: n l d s c f<o1+o2…>, comma separated|->
                                    -> cycle lease=<tp|-> wrote=<tp:o,…|-> cp=<tp=v,…|->
@@ -44,6 +44,9 @@ def showOpt (l : List String) : String := if l.isEmpty then "-" else joinWith ",
 def stepLine (d : DS) (ws : List String) : DS × String :=
   match ws with
   | ["case", _, k] => ({ kind := if k = "noop" then .noop else .mem, segs := [], st := init }, "case")
+  -- the optional 4th field names the offset statistics the fake Lister attaches to the listing
+  -- (sql: MinOffset/MaxOffset); the loop under test does not read them, so neither does the model
+  | ["case", _, k, _] => ({ kind := if k = "noop" then .noop else .mem, segs := [], st := init }, "case")
   | ["seg", tp, offs] =>
     match tp.toNat? with
     | some tp => ({ d with segs := d.segs ++ [⟨tp, parseOffs offs⟩] }, "seg")
